@@ -35,8 +35,10 @@ RULE = ("keys: every (section, key) of the generated table, online_filter / "
         "bool, None, numpy scalars, lists/tuples, nested lists, numpy arrays "
         "of ndim 0-2) plus random ones; routes: assignment/update/constructor,"
         " configuration file, store_metadata+parse_config, re-assignment. "
-        "Quick tier: the full product keys x fixed values for the assignment "
-        "route, random samples of it for the other routes. A case is "
+        "Quick tier: for the assignment route the full list of values for "
+        "one key of every (section, converter) class and 45+8 sampled values "
+        "for every other key, random samples of the product for the other "
+        "routes; thorough tier: the full product. A case is "
         "non-trivial when the key is valid and the value is neither '' nor "
         "None (a conversion is attempted); distinct = different (route, "
         "section, key, value)")
@@ -910,12 +912,19 @@ def make_cases(run):
         for v in fixed + rand_vals:
             cases.append(dict(route="conv", conv=ci, val=v))
     # route 0: full product keys x fixed values (+ random values)
-    for sec, key, cls in keys:
-        for v in fixed:
-            cases.append(dict(route=0, sec=sec, key=key, val=v, cls=cls))
-        for v in (rand_vals if run.thorough else rng.sample(rand_vals, 12)):
-            cases.append(dict(route=0, sec=sec, key=key, val=v, cls=cls))
+    # (quick tier: the full list of values for the first key of every
+    # (section, converter) class, a sample of 45 of them for the other keys)
     from dclab import definitions as dfn
+    seen_cls = set()
+    for sec, key, cls in keys:
+        kc = (sec, cls, getattr(dfn.get_config_value_func(sec, key.lower()),
+                                "__name__", "?"))
+        full = run.thorough or kc not in seen_cls
+        seen_cls.add(kc)
+        for v in (fixed if full else rng.sample(fixed, 45)):
+            cases.append(dict(route=0, sec=sec, key=key, val=v, cls=cls))
+        for v in (rand_vals if run.thorough else rng.sample(rand_vals, 8)):
+            cases.append(dict(route=0, sec=sec, key=key, val=v, cls=cls))
     # route 1 (file): all keys x all str values (thorough) / a sample
     strs = [v for v in fixed + rand_vals if v[0] == "str"
             and val_ok_for_file(v[1])]
@@ -968,17 +977,44 @@ def run(run):
             run.count("oracle-fail:%s" % kind)
             run.oracle_failure(c, "%s: %s" % (kind, desc),
                                classify(c, kind, desc))
-    # the model
+    # the model: keys and values are shared definitions, a case is a triple
+    # of indices (keeps the generated Coq files small)
     conv_cases = [(i, c) for i, c in enumerate(cases) if c["route"] == "conv"]
     cfg_cases = [(i, c) for i, c in enumerate(cases) if c["route"] != "conv"
                  and key_ok_for_model(c["sec"], c["key"])]
-    m1 = common.coq_map(run.scratch, "c11conv", HEADER,
-                        "fun c => [conv_case c; conv_twice_case c]",
-                        ["(%d, %s)" % (c["conv"], r_value(c["val"]))
-                         for _, c in conv_cases], shard=400)
-    m2 = common.coq_map(run.scratch, "c11cfg", HEADER, MODEL_FN,
-                        [render_case(c["route"], c["sec"], c["key"], c["val"])
-                         for _, c in cfg_cases], shard=400)
+    vidx, vlist, kidx, klist = {}, [], {}, []
+
+    def vi(v):
+        k = json.dumps(v)
+        if k not in vidx:
+            vidx[k] = len(vlist)
+            vlist.append(r_value(v))
+        return vidx[k]
+
+    def ki(sec, key):
+        k = (sec, key)
+        if k not in kidx:
+            kidx[k] = len(klist)
+            klist.append("(%s, %s)" % (r_str(sec), r_str(key)))
+        return kidx[k]
+    r1 = ["(%d, %d%%nat)" % (c["conv"], vi(c["val"])) for _, c in conv_cases]
+    r2 = ["(%d, %d%%nat, %d%%nat)" % (c["route"], ki(c["sec"], c["key"]),
+                                     vi(c["val"])) for _, c in cfg_cases]
+    header = (HEADER + "Open Scope Z_scope.\n"
+              "Definition K_ : list (list Z * list Z) := [\n%s].\n"
+              "Definition V_ : list value := [\n%s].\n"
+              "Definition cfg_ (c : Z * nat * nat) : list Z :=\n"
+              "  let '(r, k, v) := c in let kv := nth k K_ ([], []) in\n"
+              "  run_case table feats meta_sections\n"
+              "           (r, fst kv, snd kv, nth v V_ (VS SNone)).\n"
+              "Definition conv_ (c : Z * nat) : list (list Z) :=\n"
+              "  let (n, v) := c in let x := nth v V_ (VS SNone) in\n"
+              "  [conv_case (n, x); conv_twice_case (n, x)].\n"
+              % (";\n".join(klist), ";\n".join(vlist)))
+    m1 = common.coq_map(run.scratch, "c11conv", header, "conv_", r1,
+                        shard=3000)
+    m2 = common.coq_map(run.scratch, "c11cfg", header, "cfg_", r2,
+                        shard=2500)
     unmod = 0
     for (i, c), m in list(zip(conv_cases, m1)) + list(zip(cfg_cases, m2)):
         got = impl[i]
